@@ -820,7 +820,7 @@ def generate(prop, run_seed, tier='quick', tolerate=frozenset()):
         crng.choice([1, 1, 2, 3])
     ops = [['init', crng.randrange(len(cfg['worlds']))]]
     for _ in range(nruns):
-        ops.append(['run', crng.randint(2, 12),
+        ops.append(['run', crng.randint(2, 30 if tier == 'thorough' else 12),
                     'quit' if crng.random() < .6 else 'crash'])
     sc = {'format': 1, 'engine': 'loop', 'config': cfg, 'ops': ops,
           'scripts': {}, 'run_seed': run_seed}
